@@ -2,6 +2,7 @@
 From Coq Require Import ZArith List.
 From Acme.C01 Require Import Layout State Model ProofsLayout ProofsInv Refuted ProofsT1.
 From Acme.C07 Require Import Model Proofs.
+From Acme.C01 Require Import Examples.
 Import ListNotations.
 Open Scope Z_scope.
 
@@ -80,3 +81,9 @@ Print Assumptions d35_refuted.
 Theorem d35_grow_refuted : exists ops u g, ~ wf (mux_gsize (run ops) u) (group_view (run ops) u g).
 Proof. exact groups_full_refuted_d35_grow. Qed.
 Print Assumptions d35_grow_refuted.
+
+(* Non-vacuity: a concrete multiplexer history (fixed, two-group, repeated insertion into a further
+   group, shift, clear-group, remove) satisfies the hypotheses. *)
+Theorem hypotheses_satisfiable : ok_hist_w mux_example_ops.
+Proof. exact mux_example_ok. Qed.
+Print Assumptions hypotheses_satisfiable.
